@@ -548,6 +548,12 @@ done:
 } /* end SDIresizebuf() */
 
 #define MAX_SIZE 1000000
+#ifdef HDF4_VERIF_SIM
+/* verification hook (off by default): the simulator shrinks the fill-value chunk buffer */
+int32 h4verif_sd_fill_chunk_max = MAX_SIZE;
+#undef MAX_SIZE
+#define MAX_SIZE h4verif_sd_fill_chunk_max
+#endif
 
 /* ------------------------- hdf_get_data ------------------- */
 /*
